@@ -44,6 +44,8 @@ if "connect_allocates_after_main_channel" in open(_EXTRACT).read():
     PROP_MODULES.append("WV.Props.C13_Alloc")
 if "parked_queue_is_fifo" in open(_EXTRACT).read():
     PROP_MODULES.append("WV.Props.C13_Link")
+if "pending_opens_unbounded" in open(_EXTRACT).read():
+    PROP_MODULES.append("WV.Props.C13_Backlog")
 TRUSTED = ["L4 record delivery between the two Managers is exactly-once and in order (C10); the harness pipe is a FIFO "
            "(a re-sent old record is an explicit `dup` operation)",
            "TCP/hints/Noise: Connector.start() is a no-op, the harness creates the one negotiated link per generation "
@@ -54,7 +56,7 @@ TRUSTED = ["L4 record delivery between the two Managers is exactly-once and in o
 RULE = ("two real Managers (leader+follower) built through dilate(expected_subprotocols=unset|[]|[a]|[a,b]); random and "
         "small-scope exhaustive interleavings of connect/listen/write/loseConnection/loseWriteConnection on both sides "
         "and in-order record delivery, <=4 subchannels, names incl. non-ASCII, half-closeable and normal protocols, "
-        "(re)connections with bursts of the Leader's records sharing the KCM chunk (first connection and reconnects), one direction black-holed before a drop (lost ACKs => re-sent records), activity while the link is down; calls issued right after dilate() (before the peer's PLEASE / role choice) and before the connection exists, by either side, with both sides opening subchannels; adversarial stream adds injected OPEN/DATA/CLOSE with arbitrary "
+        "many OPENs for one name (1..129, a second name interleaved) before a late listen(); (re)connections with bursts of the Leader's records sharing the KCM chunk (first connection and reconnects), one direction black-holed before a drop (lost ACKs => re-sent records), activity while the link is down; calls issued right after dilate() (before the peer's PLEASE / role choice) and before the connection exists, by either side, with both sides opening subchannels; adversarial stream adds injected OPEN/DATA/CLOSE with arbitrary "
         "scid/seq and re-delivered old records; non-trivial = at least one subchannel reached a protocol or was refused; "
         "distinct = distinct canonical output traces")
 
@@ -1032,6 +1034,33 @@ def reconnects(full):
                          early=[("connect", "A", "a", "full")] * ea, sa="a0", sb="b1")
 
 
+def many_opens(n, second=0, leader_opens=True, extra=()):
+    """`n` subchannels for ONE subprotocol name (and `second` for another, interleaved) are opened and their OPENs
+    delivered before the other side listens for the name; then it listens, and everything is closed again"""
+    src, dst = ("A", "B") if leader_opens else ("B", "A")
+    ops = []
+    j = 0
+    for i in range(n):
+        ops.append(("connect", src, "a", "full"))
+        ops.append(("deliver", src))
+        if j < second and (i * second) // max(n, 1) >= j:
+            ops.append(("connect", src, "b", "half" if j % 2 else "full"))
+            ops.append(("deliver", src))
+            j += 1
+    while j < second:
+        ops.append(("connect", src, "b", "full"))
+        ops.append(("deliver", src))
+        j += 1
+    ops += list(extra)
+    ops.append(("listen", dst, "a", "full"))
+    if second:
+        ops.append(("listen", dst, "b", "full"))
+    # a write on the oldest and on the newest, then close the oldest from the listening side
+    ops += [("write", src, 0, "0e"), ("deliver", src), ("write", src, n + second - 1, "0f"), ("deliver", src),
+            ("lose", dst, 0), ("deliver", dst), ("deliver", src)]
+    return mkcase(ops, sa="b1" if leader_opens else "a0", sb="a0" if leader_opens else "b1")
+
+
 def cases(rng, tier):
     out = [dict(c) for c in CORPUS]
     n = 1 if tier == "quick" else 25
@@ -1039,6 +1068,20 @@ def cases(rng, tier):
         out.append(rand_case(rng))
     for _ in range(80 * n):
         out.append(rand_case(rng, adversarial=True))
+    # many OPENs for one name before a late listen(): 1, 2, 31, 32, 33, 40, 100 (+ a second name interleaved)
+    for n in (1, 2, 31, 32, 33, 40):
+        out.append(many_opens(n))
+    out.append(many_opens(33, second=3, leader_opens=False))
+    out.append(many_opens(40, second=35))
+    out.append(many_opens(rng.choice([30, 34, 47, 65]), second=rng.choice([0, 1, 5]), leader_opens=rng.random() < 0.5,
+                          extra=[("write", "A", 1, "aa"), ("deliver", "A"), ("lose", "A", 2), ("deliver", "A")]))
+    if tier == "thorough":
+        out.append(many_opens(100))
+        out.append(many_opens(100, second=40, leader_opens=False))
+        for n in (16, 63, 64, 65, 128, 129):
+            out.append(many_opens(n, second=rng.choice([0, 2])))
+    else:
+        out.append(many_opens(100))
     if tier == "thorough":
         out += list(exhaustive(5))
         out += list(phases(3))
